@@ -33,6 +33,10 @@ CHECKS = {
                      "(<= n+3 inputs, unconstrained magnitude) then a suffix returns exactly the output of a fresh instance fed the suffix only, n<=4 (5); too-short suffixes must be able "
                      "to differ (witness); violations replayed natively with the property's tolerance.",
                 technique="symbolic execution of rustc MIR into z3, two instances with different ring rotation compared; native replay", design='4/C17'),
+    'C04': dict(text="Bounded model checking by solver: for all 22 indicators, periods n<=3 (4): symbolic history (<= n+2 inputs), reset (also double reset, reset on fresh, two histories), then a "
+                     "symbolic continuation of n+2 inputs on the reset instance and on a fresh one: outputs pairwise equal, period()/multiplier() unchanged; violations replayed natively. "
+                     "Non-finite histories are covered by the Kani harnesses where registered.",
+                technique="symbolic execution of rustc MIR into z3 (reset/next/new of the real code), native replay", design='4/C04'),
 }
 NA = {
     'C19': "decided by rustc's type checker once and for all; there is no input, state or schedule for an SMT/SAT solver to quantify over",
